@@ -250,11 +250,12 @@ ROUND8 = {
  'C02': " 'nbrctx': the template's set_context call against the callee's signature. From the property, not the code: every instance of a class reaches the wrapper's type inference, one wrapper per class (not per class name), Python hooks and compiled methods share one object - three OPEN findings with native replays.",
  'C03': " BOUNDED 'hooks': inherited hook methods count as defined.",
  'C04': " Property names containing underscores in the stepper array set-up.",
- 'C05': " Solver.reorder_particles updates the neighbour search BEFORE asking for the order (defect repaired: 5c32297); C01's bounded native oracle over all twelve classes and 'nnpsinit' are re-run here.",
- 'C06': " clear() forgets strides and the real count, appended constants are copies (defects repaired: 6484c23); the model walk also clears and checks that constants are not shared.",
+ 'C05': " BOUNDED 'threads': a cached neighbour search filled by all threads with the OpenMP thread count unchanged, raised and lowered after construction (defect repaired: c20b8ce). Solver.reorder_particles updates the neighbour search BEFORE asking for the order (defect repaired: 5c32297); C01's bounded native oracle over all twelve classes and 'nnpsinit' are re-run here.",
+ 'C06': " clear() forgets strides and the real count, appended constants are copies (defects repaired: 6484c23), copy_properties resolves its default range in particles (a172a57); the model walk also clears and checks that constants are not shared.",
  'C10': " The constructor's store to output_at_times depends on the parameter alone (not on tf).",
  'C13': " Completeness witnesses for badly scaled regular systems.",
  'C14': " Property-level Shepard lemma (mean for EVERY positive weight; open finding: absolute 1e-12 threshold); native walk checks the target h and integer-typed targets; bounded case for a set in the x-z plane (open finding).",
+ 'C07': " A manager given other arrays starts without ghost buffers (defect repaired: 1b74b84; native scenario: one DomainManager serving a second NNPS).",
  'C16': " Zone length is the extent along the zone NORMAL plus one spacing, against ghost extremes of p.n (defect repaired: 504a948); update_cls defaults, several zones of one kind; every fluid array wired to every zone (open finding).",
  'C17': " _refresh: as many heads as the occupied-cells hook asks for and n_cells equal to that number (BoxSortNNPS inherits the walk); native walk includes BoxSort/CellIndexing and Solver.reorder_particles after update_domain() on a periodic box (defect repaired: 5c32297).",
  'C19': " The h minimum is current only after update_min_max() (ghost state in the model), dt_adapt is read over the REAL particles (defects repaired: 81a3836); replays on compiled particle arrays.",
